@@ -1,13 +1,13 @@
 // ref/bigint.hpp -- a small fixed-width unsigned big integer, written for obviousness, not speed.
 //
-//   struct U : 10 x 64-bit limbs (640 bits), little-endian limb order, value semantics.
-//   Schoolbook algorithms only. All arithmetic is modulo 2^640 (i.e. silently truncating), so callers must keep
-//   operands small enough: everything in the curve models is < 2^512 before reduction, and products are only ever
-//   formed from operands < 2^256 (or 2^512 x 2^32), which leaves ample head-room.
+//   struct U : 10 x 64-bit limbs (640 bits), little-endian limb order, value semantics; carries are handled with
+//   an unsigned __int128 accumulator. Schoolbook algorithms only. All arithmetic is modulo 2^640 (i.e. silently
+//   truncating), so callers must keep operands small enough: everything in the curve models is < 2^512 before
+//   reduction, and products are only ever formed from operands < 2^256 (or 2^512 x 2^64), which leaves head-room.
 //
 //   Generic modular helpers (u_mod, u_addmod, u_mulmod, u_powmod, u_invmod_prime) work for any modulus and use
-//   bit-by-bit shift-subtract division. They are slow (~10 us per mulmod) and are used for arithmetic modulo the
-//   group order L and as the cross-check for the fast path below.
+//   bit-by-bit shift-subtract division. They are slow and are used for arithmetic modulo the group order L and as
+//   the cross-check for the fast path below.
 //
 //   fp_* : arithmetic in GF(p), p = 2^255 - 19, with reduction done by folding: since 2^255 = 19 (mod p),
 //   x = hi * 2^255 + lo  ==  19 * hi + lo (mod p).  That is plain integer arithmetic on U, no limb tricks.
@@ -16,6 +16,8 @@
 #include "common.hpp"
 
 namespace ref {
+
+typedef unsigned __int128 u128;  // double-limb accumulator
 
 struct U {
     static const int N = 10;  // limbs
@@ -27,7 +29,6 @@ struct U {
         w[0] = v;
     }
 };
-typedef unsigned __int128 u128;  // double-limb accumulator for carries
 
 // ---------------------------------------------------------------- basic queries
 inline int u_used(const U &a) {  // number of significant limbs (0 for the value 0)
@@ -38,19 +39,19 @@ inline int u_used(const U &a) {  // number of significant limbs (0 for the value
 inline int u_bitlen(const U &a) {  // position of the highest set bit + 1 (0 for the value 0)
     int n = u_used(a);
     if (n == 0) return 0;
-    uint32_t top = a.w[n - 1];
+    uint64_t top = a.w[n - 1];
     int b = 0;
     while (top) { b++; top >>= 1; }
-    return 32 * (n - 1) + b;
+    return 64 * (n - 1) + b;
 }
 inline bool u_is_zero(const U &a) { return u_used(a) == 0; }
 inline bool u_bit(const U &a, int i) {
     if (i < 0 || i >= U::BITS) return false;
-    return (a.w[i / 32] >> (i % 32)) & 1;
+    return (a.w[i / 64] >> (i % 64)) & 1;
 }
 inline void u_setbit(U &a, int i) {
     if (i < 0 || i >= U::BITS) return;
-    a.w[i / 32] |= (uint32_t) 1 << (i % 32);
+    a.w[i / 64] |= (uint64_t) 1 << (i % 64);
 }
 inline int u_cmp(const U &a, const U &b) {  // -1, 0, +1
     for (int i = U::N - 1; i >= 0; i--) {
@@ -63,16 +64,16 @@ inline bool operator==(const U &a, const U &b) { return u_cmp(a, b) == 0; }
 inline bool operator!=(const U &a, const U &b) { return u_cmp(a, b) != 0; }
 inline bool operator<(const U &a, const U &b) { return u_cmp(a, b) < 0; }
 inline bool operator>=(const U &a, const U &b) { return u_cmp(a, b) >= 0; }
-inline uint64_t u_low64(const U &a) { return (uint64_t) a.w[0] | ((uint64_t) a.w[1] << 32); }
+inline uint64_t u_low64(const U &a) { return a.w[0]; }
 
 // ---------------------------------------------------------------- add / sub / mul / shifts
 inline U u_add(const U &a, const U &b) {  // (a + b) mod 2^640
     U r;
-    uint64_t c = 0;
+    u128 c = 0;
     for (int i = 0; i < U::N; i++) {
-        c += (uint64_t) a.w[i] + b.w[i];
-        r.w[i] = (uint32_t) c;
-        c >>= 32;
+        c += (u128) a.w[i] + b.w[i];
+        r.w[i] = (uint64_t) c;
+        c >>= 64;
     }
     return r;
 }
@@ -81,20 +82,20 @@ inline U u_sub(const U &a, const U &b, bool *borrow = nullptr) {
     U r;
     uint64_t br = 0;
     for (int i = 0; i < U::N; i++) {
-        uint64_t d = (uint64_t) a.w[i] - b.w[i] - br;
-        r.w[i] = (uint32_t) d;
-        br = (d >> 63) & 1;  // went negative
+        u128 d = (u128) a.w[i] - b.w[i] - br;  // wraps around 2^128 when negative
+        r.w[i] = (uint64_t) d;
+        br = (uint64_t)(d >> 127) & 1;
     }
     if (borrow) *borrow = br != 0;
     return r;
 }
-inline U u_mul_small(const U &a, uint32_t k) {  // (a * k) mod 2^640
+inline U u_mul_small(const U &a, uint64_t k) {  // (a * k) mod 2^640
     U r;
-    uint64_t c = 0;
+    u128 c = 0;
     for (int i = 0; i < U::N; i++) {
-        c += (uint64_t) a.w[i] * k;
-        r.w[i] = (uint32_t) c;
-        c >>= 32;
+        c += (u128) a.w[i] * k;
+        r.w[i] = (uint64_t) c;
+        c >>= 64;
     }
     return r;
 }
@@ -102,16 +103,16 @@ inline U u_mul(const U &a, const U &b) {  // schoolbook; (a * b) mod 2^640
     U r;
     int na = u_used(a), nb = u_used(b);
     for (int i = 0; i < na; i++) {
-        uint64_t c = 0;
+        u128 c = 0;
         for (int j = 0; j < nb && i + j < U::N; j++) {
-            c += (uint64_t) a.w[i] * b.w[j] + r.w[i + j];
-            r.w[i + j] = (uint32_t) c;
-            c >>= 32;
+            c += (u128) a.w[i] * b.w[j] + r.w[i + j];  // <= (2^64-1)^2 + 2*(2^64-1) < 2^128
+            r.w[i + j] = (uint64_t) c;
+            c >>= 64;
         }
         for (int k = i + nb; c != 0 && k < U::N; k++) {
             c += r.w[k];
-            r.w[k] = (uint32_t) c;
-            c >>= 32;
+            r.w[k] = (uint64_t) c;
+            c >>= 64;
         }
     }
     return r;
@@ -119,10 +120,10 @@ inline U u_mul(const U &a, const U &b) {  // schoolbook; (a * b) mod 2^640
 inline U u_shl(const U &a, int n) {  // (a << n) mod 2^640
     U r;
     if (n < 0 || n >= U::BITS) return r;
-    int ls = n / 32, bs = n % 32;
+    int ls = n / 64, bs = n % 64;
     for (int i = U::N - 1; i >= ls; i--) {
-        uint32_t v = a.w[i - ls] << bs;
-        if (bs != 0 && i - ls - 1 >= 0) v |= a.w[i - ls - 1] >> (32 - bs);
+        uint64_t v = a.w[i - ls] << bs;
+        if (bs != 0 && i - ls - 1 >= 0) v |= a.w[i - ls - 1] >> (64 - bs);
         r.w[i] = v;
     }
     return r;
@@ -130,10 +131,10 @@ inline U u_shl(const U &a, int n) {  // (a << n) mod 2^640
 inline U u_shr(const U &a, int n) {  // floor(a / 2^n)
     U r;
     if (n < 0 || n >= U::BITS) return r;
-    int ls = n / 32, bs = n % 32;
+    int ls = n / 64, bs = n % 64;
     for (int i = 0; i + ls < U::N; i++) {
-        uint32_t v = a.w[i + ls] >> bs;
-        if (bs != 0 && i + ls + 1 < U::N) v |= a.w[i + ls + 1] << (32 - bs);
+        uint64_t v = a.w[i + ls] >> bs;
+        if (bs != 0 && i + ls + 1 < U::N) v |= a.w[i + ls + 1] << (64 - bs);
         r.w[i] = v;
     }
     return r;
@@ -142,8 +143,8 @@ inline U u_low_bits(const U &a, int n) {  // a mod 2^n
     U r;
     if (n <= 0) return r;
     if (n >= U::BITS) return a;
-    for (int i = 0; i < n / 32; i++) r.w[i] = a.w[i];
-    if (n % 32) r.w[n / 32] = a.w[n / 32] & (((uint32_t) 1 << (n % 32)) - 1);
+    for (int i = 0; i < n / 64; i++) r.w[i] = a.w[i];
+    if (n % 64) r.w[n / 64] = a.w[n / 64] & (((uint64_t) 1 << (n % 64)) - 1);
     return r;
 }
 
@@ -151,7 +152,7 @@ inline U u_low_bits(const U &a, int n) {  // a mod 2^n
 // Little-endian bytes -> integer. Bytes beyond 80 (the capacity of U) are ignored.
 inline U u_from_le(const uint8_t *p, size_t n) {
     U r;
-    for (size_t i = 0; i < n && i < (size_t) U::N * 4; i++) r.w[i / 4] |= (uint32_t) p[i] << (8 * (i % 4));
+    for (size_t i = 0; i < n && i < (size_t) U::N * 8; i++) r.w[i / 8] |= (uint64_t) p[i] << (8 * (i % 8));
     return r;
 }
 inline U u_from_le(const Bytes &b) { return u_from_le(b.data(), b.size()); }
@@ -163,7 +164,7 @@ inline U u_from_be(const Bytes &b) {
 // integer -> exactly n little-endian bytes (value truncated mod 2^(8n) if it does not fit; zero-padded otherwise).
 inline Bytes u_to_le(const U &a, size_t n) {
     Bytes out(n, 0);
-    for (size_t i = 0; i < n && i < (size_t) U::N * 4; i++) out[i] = (uint8_t)(a.w[i / 4] >> (8 * (i % 4)));
+    for (size_t i = 0; i < n && i < (size_t) U::N * 8; i++) out[i] = (uint8_t)(a.w[i / 8] >> (8 * (i % 8)));
     return out;
 }
 inline U u_from_dec(const char *s) {  // decimal literal; non-digits are skipped
@@ -183,7 +184,7 @@ inline U u_from_hex(const char *s) {  // big-endian hex literal, e.g. "7fff...ed
     if (t.size() % 2) t.insert(t.begin(), '0');
     return u_from_be(from_hex(t));
 }
-inline std::string u_to_hex(const U &a) {  // big-endian hex, no leading zeros (at least "00")
+inline std::string u_to_hex(const U &a) {  // big-endian hex, whole bytes, no leading zero bytes (at least "00")
     int nbytes = (u_bitlen(a) + 7) / 8;
     if (nbytes == 0) nbytes = 1;
     Bytes le = u_to_le(a, (size_t) nbytes);
@@ -192,14 +193,16 @@ inline std::string u_to_hex(const U &a) {  // big-endian hex, no leading zeros (
 }
 
 // ---------------------------------------------------------------- division (bit-by-bit shift-subtract)
-// q = floor(a / m), r = a mod m. Returns false (and q = r = 0) if m == 0.
+// q = floor(a / m), r = a mod m. Returns false (and q = r = 0) if m == 0. Requires m < 2^639.
 inline bool u_divmod(const U &a, const U &m, U &q, U &r) {
     q = U();
     r = U();
     if (u_is_zero(m)) return false;
+    if (u_cmp(a, m) < 0) { r = a; return true; }  // shortcut: already reduced
     for (int i = u_bitlen(a) - 1; i >= 0; i--) {
-        r = u_shl(r, 1);  // r < m <= 2^640 - 1 and we only get here with r < m, so for m < 2^639 no bit is lost
-        if (u_bit(a, i)) r.w[0] |= 1;
+        // r = 2*r + bit i of a   (r < m < 2^639 on entry, so the doubling cannot overflow)
+        for (int k = U::N - 1; k > 0; k--) r.w[k] = (r.w[k] << 1) | (r.w[k - 1] >> 63);
+        r.w[0] = (r.w[0] << 1) | (u_bit(a, i) ? 1 : 0);
         if (u_cmp(r, m) >= 0) {
             r = u_sub(r, m);
             u_setbit(q, i);
@@ -207,12 +210,12 @@ inline bool u_divmod(const U &a, const U &m, U &q, U &r) {
     }
     return true;
 }
-inline U u_mod(const U &a, const U &m) {  // a mod m (0 if m == 0). Requires m < 2^639.
+inline U u_mod(const U &a, const U &m) {  // a mod m (0 if m == 0)
     U q, r;
     u_divmod(a, m, q, r);
     return r;
 }
-inline U u_div(const U &a, const U &m) {
+inline U u_div(const U &a, const U &m) {  // floor(a / m) (0 if m == 0)
     U q, r;
     u_divmod(a, m, q, r);
     return q;
@@ -250,12 +253,32 @@ inline const U &L25519() {
 
 // ---------------------------------------------------------------- GF(2^255 - 19), folding reduction
 // Reduce ANY U value modulo p: while x has more than 255 bits, replace x = hi*2^255 + lo by 19*hi + lo.
+// fp_fold_slow spells one folding step out with the generic operations; fp_fold computes exactly the same integer
+// in a single pass over the limbs (this is the hot spot of every model). The self-test compares the two, and
+// compares fp_red against the generic shift-subtract u_mod.
+inline U fp_fold_slow(const U &x) {
+    U hi = u_shr(x, 255), lo = u_low_bits(x, 255);
+    return u_add(lo, u_mul_small(hi, 19));
+}
+inline U fp_fold(const U &x) {
+    U r;
+    u128 acc = 0;
+    for (int i = 0; i < U::N; i++) {
+        // limb i of lo = x mod 2^255: limbs 0..2 unchanged, limb 3 without its top bit (bit 255), nothing above
+        uint64_t lo_i = i < 3 ? x.w[i] : (i == 3 ? (x.w[3] & 0x7fffffffffffffffULL) : 0);
+        // limb i of hi = x >> 255 = x >> (3*64 + 63): top bit of limb i+3, then the low 63 bits of limb i+4
+        uint64_t hi_i = 0;
+        if (i + 3 < U::N) hi_i |= x.w[i + 3] >> 63;
+        if (i + 4 < U::N) hi_i |= x.w[i + 4] << 1;
+        acc += (u128) hi_i * 19 + lo_i;
+        r.w[i] = (uint64_t) acc;
+        acc >>= 64;
+    }
+    return r;
+}
 inline U fp_red(const U &x0) {
     U x = x0;
-    while (u_bitlen(x) > 255) {
-        U hi = u_shr(x, 255), lo = u_low_bits(x, 255);
-        x = u_add(lo, u_mul_small(hi, 19));
-    }
+    while (u_bitlen(x) > 255) x = fp_fold(x);
     // now x < 2^255 = p + 19, so at most one subtraction is needed
     if (u_cmp(x, P25519()) >= 0) x = u_sub(x, P25519());
     return x;
